@@ -1,4 +1,5 @@
 import Ucfg.Lemmas.Forest
+import Ucfg.Lemmas.ForestSet
 /-!
   C15 — Path, Parent, FlattenedKeys and diff describe the actual structure.
 
@@ -10,6 +11,11 @@ import Ucfg.Lemmas.Forest
   * `copy_has_context`: a deep copy carries the context it was made for;
   * CompareConfigs partitions the two key sets (`compare_keep/add/remove`, `compare_exhaustive`, `compare_disjoint`)
     and reports no change for equal key sets (`compare_equal_sets_unchanged`).
+  * Set* through a whole path (`setPathH`: phase 1 walk, one new object per missing segment): `set_builds_chain` - the new
+    nodes form a chain below the container the walk stopped at, each storing the node above as parent and its segment as
+    name, the last one being the value; `set_keeps_contexts` - no existing node's stored parent or name changes;
+    `set_at_root_path` - for a container that is a root, `Path()` of the new value is exactly the address it was written
+    to.
   What is *not* proved: that every public operation is a composition of these primitives (that is the reading of
   merge.go/path.go the model's header records, checked on histories through the fingerprint hook), and the claim for a
   node attached at two positions (known finding D20).
@@ -301,5 +307,81 @@ theorem padTo_spec : ∀ (n : Nat) (h : Heap) (to : Id) (idx : Nat) (p : Option 
       omega
     · rw [if_neg hlen]
       refine ⟨[], by simpa using hg, by simp; omega, by simpa using hidx⟩
+
+end Ucfg.C15
+
+namespace Ucfg.C15
+open Ucfg.Forest
+
+/-- a Set* call that succeeds: below the container the walk stopped at, the missing objects and the value are a chain of
+nodes each storing the node above as its parent and its own segment as its name -/
+theorem set_builds_chain (h h' : Heap) (root : Id) (segs : List Seg) (k v : String)
+    (hs : setPathH h root segs (.prim k v) = .ok h') (hnames : ∀ s ∈ segs, s.str ≠ "") (hne : segs ≠ []) :
+    ∃ (to : Id) (rest : List Seg) (links : List (String × Id)), walkSet h root segs = .stop to rest ∧
+      links.map (·.1) = rest.map Seg.str ∧ Chain h' to links ∧
+      ∃ nm leaf p, links.getLast? = some (nm, leaf) ∧ h'[leaf]? = some ⟨some p, nm, .prim k v⟩ := by
+  unfold setPathH at hs
+  cases hw : walkSet h root segs with
+  | unmodelled => rw [hw] at hs; cases hs
+  | err => rw [hw] at hs; cases hs
+  | stop to rest =>
+    rw [hw] at hs
+    simp only at hs
+    cases hg : getSub h to with
+    | none => rw [hg] at hs; cases hs
+    | some q =>
+      rw [hg] at hs
+      simp only [SetRes.ok.injEq] at hs
+      subst hs
+      have hrest : rest ≠ [] ∧ ∀ s ∈ rest, s ∈ segs := walkSet_rest h root segs to rest hne hw
+      obtain ⟨links, hm, hch, hl⟩ := setChain_chain k v rest h to (getSub_lt hg) hrest.1
+        (fun s hs => hnames s (hrest.2 s hs))
+      exact ⟨to, rest, links, rfl, hm, hch, hl⟩
+
+/-- ... and no node that existed keeps anything but its stored parent and name: a write moves nothing -/
+theorem set_keeps_contexts (h h' : Heap) (root : Id) (segs : List Seg) (k v : String)
+    (hs : setPathH h root segs (.prim k v) = .ok h') : SameCtx h h' := by
+  unfold setPathH at hs
+  cases hw : walkSet h root segs with
+  | unmodelled => rw [hw] at hs; cases hs
+  | err => rw [hw] at hs; cases hs
+  | stop to rest =>
+    rw [hw] at hs
+    simp only at hs
+    cases hg : getSub h to with
+    | none => rw [hg] at hs; cases hs
+    | some q =>
+      rw [hg] at hs
+      simp only [SetRes.ok.injEq] at hs
+      subst hs
+      exact setChain_sameCtx k v rest h to
+
+/-- written below a root: Path() of the new value is the address that was built -/
+theorem set_at_root_path (h : Heap) (root : Id) (rb : Body) (rest : List Seg) (k v : String)
+    (hroot : h[root]? = some ⟨none, "", rb⟩) (hne : rest ≠ []) (hnames : ∀ s ∈ rest, s.str ≠ "") :
+    ∃ leaf, (∃ p nm, (setChain h root rest (.prim k v))[leaf]? = some ⟨some p, nm, .prim k v⟩) ∧
+      storedPath (rest.length + 1) (setChain h root rest (.prim k v)) leaf = rest.map Seg.str := by
+  have hlt : root < h.length := by
+    apply Nat.lt_of_not_le
+    intro hle
+    rw [List.getElem?_eq_none hle] at hroot
+    cases hroot
+  obtain ⟨links, hm, hch, nm, leaf, p, hlast, hl⟩ := setChain_chain k v rest h root hlt hne hnames
+  obtain ⟨b, hb⟩ := (setChain_sameCtx k v rest h root).2 root _ hroot
+  have hlen : links.length = rest.length := by
+    have := congrArg List.length hm
+    simpa using this
+  have := storedPath_is_position (setChain h root rest (.prim k v)) root links b hb hch (rest.length + 1) (by omega)
+  rw [hlast] at this
+  simp only [Option.map_some, Option.getD_some] at this
+  exact ⟨leaf, ⟨p, nm, hl⟩, by rw [this, hm]⟩
+
+/-- non-vacuity: `a.b.0 = 7` written into an empty root builds the two objects and pads nothing -/
+example : setPathH [⟨none, "", .sub [] []⟩] 0 [.name "a", .name "b", .idx 0] (.prim "int" "7") =
+    .ok [⟨none, "", .sub [("a", 1)] []⟩, ⟨some 0, "a", .sub [("b", 2)] []⟩, ⟨some 1, "b", .sub [] [3]⟩,
+         ⟨some 2, "0", .prim "int" "7"⟩] := by decide
+
+example : storedPath 4 [⟨none, "", .sub [("a", 1)] []⟩, ⟨some 0, "a", .sub [("b", 2)] []⟩, ⟨some 1, "b", .sub [] [3]⟩,
+         ⟨some 2, "0", .prim "int" "7"⟩] 3 = ["a", "b", "0"] := by decide
 
 end Ucfg.C15
